@@ -37,7 +37,9 @@ import (
 	"fmt"
 	"os"
 	"os/exec"
+	"strconv"
 	"strings"
+	"syscall"
 	"sync/atomic"
 	"testing"
 	"testing/synctest"
@@ -144,11 +146,163 @@ func vfC04ParseTok(f []byte) string {
 // TestVerifC04Child parses one file in a process of its own (inputs whose
 // length fields ask for absurd allocations).
 func TestVerifC04Child(t *testing.T) {
+	if bf := os.Getenv("VERIF_C04_BATCH"); bf != "" {
+		vfC04ChildBatch(t, bf)
+		return
+	}
 	h := os.Getenv("VERIF_C04_CHILD")
 	if h == "" {
 		t.Skip("child mode only")
 	}
 	fmt.Printf("C04CHILD %s\n", vfC04ParseTok(vfutil.UnHex(h)))
+}
+
+// ---------------------------------------------------------------- supervised batches
+//
+// Pipeline cases whose damaged input may make the REAL code spin or eat memory
+// (value decoders run in the replay workers before the checksum is reached)
+// are executed in a child process with a hard address-space limit; the parent
+// reads one result line per case with a wall-clock budget, reports the case at
+// which the child died ("oom"/"crash") or went silent ("hang") and restarts
+// the child behind it.
+
+type vfC04BatchCase struct {
+	File string    `json:"file"`
+	Data string    `json:"data"` // hex
+	Size int64     `json:"size"`
+	Opts vfC04Opts `json:"opts"`
+}
+
+type vfC04BatchRes struct {
+	Err, Cp, All, Leak bool
+	Missing            []string
+	Died               string // "", "hang", "oom", "crash"
+}
+
+func vfC04KVsOf(name string) []vfc20.KV {
+	for _, f := range append(append(vfC04Files(), vfC04OomBait()), vfC04StreamFile()) {
+		if f.Name == name {
+			return f.KVs
+		}
+	}
+	return nil
+}
+
+func vfC04ChildBatch(t *testing.T, path string) {
+	lim := syscall.Rlimit{Cur: 6 << 30, Max: 6 << 30}
+	syscall.Setrlimit(syscall.RLIMIT_AS, &lim)
+	b, err := os.ReadFile(path)
+	if err != nil {
+		t.Fatal(err)
+	}
+	from, _ := strconv.Atoi(os.Getenv("VERIF_C04_FROM"))
+	lines := strings.Split(strings.TrimSpace(string(b)), "\n")
+	for i := from; i < len(lines); i++ {
+		var c vfC04BatchCase
+		if json.Unmarshal([]byte(lines[i]), &c) != nil {
+			t.Fatalf("bad batch line %d", i)
+		}
+		r := vfC04Send(t, vfC04KVsOf(c.File), vfutil.UnHex(c.Data), c.Size, c.Opts)
+		died := ""
+		if r.Hang != "" {
+			died = "hang"
+		}
+		m, _ := json.Marshal(r.Missing)
+		fmt.Printf("C04B %d %v %v %v %v %q %s\n", i, r.Err != nil, r.Cp, r.AllApplied, r.Leak, died, m)
+		os.Stdout.Sync()
+	}
+	fmt.Printf("C04B done\n")
+}
+
+func vfC04RunBatch(s *vfutil.Session, cases []vfC04BatchCase, mark func(string)) []vfC04BatchRes {
+	out := make([]vfC04BatchRes, len(cases))
+	if len(cases) == 0 {
+		return out
+	}
+	f, err := os.CreateTemp("", "vfc04batch*.jsonl")
+	if err != nil {
+		panic(err)
+	}
+	defer os.Remove(f.Name())
+	for _, c := range cases {
+		b, _ := json.Marshal(c)
+		f.Write(append(b, '\n'))
+	}
+	f.Close()
+	next := 0
+	for next < len(cases) {
+		s.Count("batch_child_started")
+		cmd := exec.Command(os.Args[0], "-test.run", "^TestVerifC04Child$", "-test.count", "1", "-test.timeout", "30m")
+		cmd.Env = append(os.Environ(), "VERIF_C04_BATCH="+f.Name(), "VERIF_C04_FROM="+strconv.Itoa(next), "VERIF_OUT="+os.TempDir(), "GOMEMLIMIT=3GiB")
+		stdout, _ := cmd.StdoutPipe()
+		var stderr bytes.Buffer
+		cmd.Stderr = &stderr
+		if err := cmd.Start(); err != nil {
+			panic(err)
+		}
+		lines := make(chan string, 64)
+		go func() {
+			sc := bufio.NewScanner(stdout)
+			sc.Buffer(make([]byte, 1<<20), 1<<20)
+			for sc.Scan() {
+				if strings.HasPrefix(sc.Text(), "C04B ") {
+					lines <- sc.Text()
+				}
+			}
+			close(lines)
+		}()
+		finished := false
+	read:
+		for {
+			select {
+			case l, ok := <-lines:
+				if !ok {
+					break read
+				}
+				if l == "C04B done" {
+					finished = true
+					continue
+				}
+				var idx int
+				var r vfC04BatchRes
+				var miss string
+				if _, err := fmt.Sscanf(l, "C04B %d %t %t %t %t %q %s", &idx, &r.Err, &r.Cp, &r.All, &r.Leak, &r.Died, &miss); err == nil && idx == next {
+					json.Unmarshal([]byte(miss), &r.Missing)
+					out[idx] = r
+					next++
+					mark(fmt.Sprintf("batch %d", next))
+				}
+			case <-time.After(40 * time.Second):
+				cmd.Process.Kill()
+				if next < len(cases) {
+					out[next] = vfC04BatchRes{Died: "hang"}
+					next++
+				}
+				break read
+			}
+		}
+		cmd.Process.Kill()
+		cmd.Wait()
+		if !finished && next < len(cases) && out[next].Died == "" && (next == 0 || out[next-1].Died != "hang") {
+			// the child died while working on case `next`
+			died := "crash"
+			if strings.Contains(stderr.String(), "out of memory") || strings.Contains(stderr.String(), "cannot allocate") {
+				died = "oom"
+			}
+			out[next] = vfC04BatchRes{Died: died}
+			next++
+		}
+	}
+	return out
+}
+
+// vfC04StreamFile: a snapshot whose middle key is a stream (listpack value).
+func vfC04StreamFile() vfC04File {
+	return vfC04File{Name: "stream", KVs: []vfc20.KV{
+		{DB: 0, Key: []byte("a"), Type: 0, Str: []byte("1")},
+		vfc20.SmallStream("st"),
+		{DB: 0, Key: []byte("z"), Type: 1, Items: [][]byte{[]byte("p"), []byte("q")}},
+	}}
 }
 
 // vfC04ParseGuarded: in-process when safe, otherwise in a child process with
@@ -580,6 +734,71 @@ func TestVerifC04(t *testing.T) {
 				r := vfC04Send(t, f.KVs, g, int64(len(g)), o)
 				vfC04Monitor(s, "send-altered", f.Name, g, o, r)
 				s.Count("send_alterations")
+			}
+		}
+	}
+
+	// ------------------------------------------------ 2b. a stream value: decoders run in the workers, supervised child
+	{
+		f := vfC04StreamFile()
+		data := f.bytes()
+		s.Add("sweep_file_bytes", len(data))
+		var cases []vfC04BatchCase
+		add := func(g []byte, i int) {
+			o := vfC04DefaultOpts()
+			o.Parallel = 1 + i%3
+			o.Bisync = i%4 == 3
+			o.Restore = false // expansion: the listpack decoder runs
+			cases = append(cases, vfC04BatchCase{File: f.Name, Data: vfutil.Hex(g), Size: int64(len(data)), Opts: o})
+		}
+		oi := 0
+		oc := vfC04DefaultOpts()
+		cases = append(cases, vfC04BatchCase{File: f.Name, Data: vfutil.Hex(data), Size: int64(len(data)), Opts: oc}) // intact
+		for k := 0; k < len(data); k += vfutil.Scale(3, 1) {
+			add(data[:k], oi)
+			oi++
+		}
+		masks := []int{0x01, 0x80, 0xFF, 0xF5}
+		if vfutil.Thorough() {
+			masks = []int{0x01, 0x02, 0x04, 0x08, 0x10, 0x20, 0x40, 0x80, 0xFF, 0xF5, 0xF7, 0xFA, 0x7F}
+		}
+		for pos := 9; pos < len(data); pos++ {
+			for _, m := range masks {
+				g := append([]byte(nil), data...)
+				g[pos] ^= byte(m)
+				add(g, oi)
+				oi++
+			}
+		}
+		mark("stream batch")
+		res := vfC04RunBatch(s, cases, mark)
+		for i, r := range res {
+			c := cases[i]
+			rp := map[string]interface{}{"scenario": "send-stream", "file": c.File, "rdb": c.Data, "opts": c.Opts.String()}
+			s.Count("send_stream_cases")
+			if r.Died != "" {
+				s.Count("viol_" + r.Died)
+				s.Violate(r.Died, fmt.Sprintf("damaged stream snapshot: the replay does not return an error, the process %s", map[string]string{"hang": "hangs", "oom": "dies of memory exhaustion", "crash": "crashes"}[r.Died]), rp)
+				continue
+			}
+			if i == 0 && (r.Err || !r.Cp || !r.All) {
+				s.Violate("clean-run-failed", fmt.Sprintf("intact stream snapshot: err=%v cp=%v all=%v missing=%q", r.Err, r.Cp, r.All, r.Missing), rp)
+			}
+			if r.Leak {
+				s.Count("observed_parser_goroutine_left_blocked_after_abort")
+			}
+			if !r.All {
+				s.Count("incomplete_replays")
+				if !r.Err {
+					s.Count("viol_incomplete-reported-ok")
+					s.Violate("incomplete-reported-ok", fmt.Sprintf("send-stream: keys %q not applied but SendRdb returned nil (checkpoint=%v)", r.Missing, r.Cp), rp)
+				}
+				if r.Cp {
+					s.Count("viol_incomplete-checkpointed")
+					s.Violate("incomplete-checkpointed", fmt.Sprintf("send-stream: keys %q not applied but the resume position was advanced", r.Missing), rp)
+				}
+			} else {
+				s.Count("complete_replays")
 			}
 		}
 	}
